@@ -4,6 +4,7 @@ import CdsVerif.Driver.SeqEval
 import CdsVerif.Driver.Replay
 import CdsVerif.Algo.Spin.Model
 import CdsVerif.Algo.Treiber.Model
+import CdsVerif.Algo.MSQueue.Model
 import CdsVerif.Algo.Ring.Model
 open CdsVerif.Driver
 
@@ -70,6 +71,10 @@ def main (args : List String) : IO UInt32 := do
   | ["lincheck"] => lcLoop stdin {}; return 0
   | ["eval"] => evalLoop stdin; return 0
   | ["seqeval"] => seqLoop stdin; return 0
+  | ["replay", "msqueue"] =>
+    replayLoop stdin CdsVerif.Algo.MSQueue.model (fun _ => CdsVerif.Algo.MSQueue.init)
+      (fun loc => loc == "head" || loc == "tail" || (loc.startsWith "n" && !(loc.any (· == '+')))) (fun _ => true) none
+    return 0
   | ["replay", "treiber"] =>
     replayLoop stdin CdsVerif.Algo.Treiber.model (fun _ => CdsVerif.Algo.Treiber.init)
       (fun loc => loc == "top" || (loc.startsWith "n" && !(loc.any (· == '+')))) (fun _ => true) none
